@@ -55,3 +55,43 @@ def representation_private(ctx, prog):
             ctx.ob(R, "exported %s is an unsafe fn" % s["path"], s["unsafe"], "unsafe=%s" % s["unsafe"])
     if prog.cfg in ("unchecked", "unsafe", "unsafe_dbg"):
         ctx.floor(R, u, 24, "exported *_unchecked functions")
+
+
+_REF_IMPLS = None
+
+
+def trait_census(ctx, prog, scope=None):
+    """the methods each trait impl defines are those of the reviewed tree (sa/ref_impls.json): a NEW override of a provided
+    method (`Iterator::nth`, `PartialEq::ne`, `PartialOrd::lt`, `Ord::max`, a default method of one of the crate's own
+    traits ...) is a second implementation of behaviour the rules only checked once, and a new impl of a watched core trait
+    is a new public behaviour; both must be reviewed before the per-method rules can speak for the type"""
+    import json, os, re
+    global _REF_IMPLS
+    R = "SA-WHOMAYCALL"
+    if _REF_IMPLS is None:
+        try:
+            with open(os.path.join(os.path.dirname(os.path.dirname(os.path.abspath(__file__))), "ref_impls.json")) as fh:
+                _REF_IMPLS = json.load(fh)
+        except OSError:
+            _REF_IMPLS = {}
+    ctx.rule(R, "trait-override census: every method defined in a (non-derived) trait impl of the crate is one the reviewed tree defines for that impl; new overrides of provided methods and new impls of watched core traits are reported")
+    watched = ("core::cmp::", "core::hash::Hash", "core::iter::", "core::ops::", "core::convert::", "core::str::FromStr", "core::fmt::Display", "internals::")
+    rx = re.compile(scope) if scope else None
+    tab = {}
+    for f in prog.fns:
+        if f.impl_trait and not f.derived and "closure" not in f.path:
+            tab.setdefault("%s for %s" % (f.impl_trait, f.impl_self), set()).add(f.path.split("::")[-1])
+    n = 0
+    for key, methods in sorted(tab.items()):
+        if rx and not rx.search(key):
+            continue
+        if not key.startswith(watched):
+            continue
+        n += 1
+        ref = _REF_IMPLS.get(key)
+        if ref is None:
+            ctx.ob(R, "impl %s is a reviewed impl" % key, False, "not on the reviewed tree; defines %s" % sorted(methods))
+            continue
+        extra = sorted(methods - set(ref))
+        ctx.ob(R, "impl %s defines only reviewed methods" % key, not extra, "new: %s" % extra if extra else "%s" % sorted(methods))
+    return n
